@@ -158,7 +158,7 @@ def utxo_map(sc):
             assets[(p, n)] = assets.get((p, n), 0) + int(q)
         spec = u["addr"]
         m[(u["txid"], int(u["ix"]))] = {"coin": int(u["coin"]), "assets": {k: q for k, q in assets.items() if q},
-                                        "key_locked": isinstance(spec, str), "id": u["id"]}
+                                        "key_locked": isinstance(spec, str) or spec[0] == "key", "id": u["id"]}
     return m
 
 
@@ -474,7 +474,11 @@ def gen_scenario(rng, idx, mode="full", force=None):
     cands = []
     for j in range(n):
         r = rng.random()
-        addr = "k0" if r < 0.62 else "k1" if r < 0.74 else "k0+s1" if r < 0.80 else ["script", SPEND] if r < 0.92 else ["script", ["pk", "k3"]]
+        # all eight CIP-19 payment address types: key / script payment credential x {none, key, script, pointer} stake part
+        addr = "k0" if r < 0.55 else "k1" if r < 0.65 else "k0+s1" if r < 0.70 else "k0+ptr" if r < 0.74 else \
+            ["key", "k0", ["script", ["pk", "k3"]]] if r < 0.78 else ["script", SPEND] if r < 0.86 else \
+            ["script", ["pk", "k3"]] if r < 0.90 else ["script", SPEND, "s1"] if r < 0.93 else \
+            ["script", SPEND, "ptr"] if r < 0.97 else ["script", SPEND, ["script", ["pk", "k3"]]]
         u = {"id": f"c{j}", "txid": txid(tag + f"/c{j}") if rng.random() < 0.8 else txid(tag + "/shared"), "ix": j,
              "addr": addr, "coin": rng.choice(coins)}
         if rng.random() < 0.3:
